@@ -364,6 +364,11 @@ func (c *Constraint) matchesPermanodeTypes() []string {
 			}
 			return sb
 		case "or":
+			if len(sa) == 0 || len(sb) == 0 {
+				// One branch may match permanodes of any type (or
+				// none), so no set of types covers the union.
+				return nil
+			}
 			return append(sa, sb...)
 		}
 	}
